@@ -72,6 +72,10 @@ pub fn decode_history_v2(data: &[u8]) -> History {
     let activation = if otaa { Activation::Otaa } else { Activation::Abp { fcnt_up: up, fcnt_down: down } };
     let mut h = decode_body(cfg, activation, ((b0 as u64 * 131 + b1 as u64) * 131 + b2 as u64) * 131 + b3 as u64, &mut it, true);
     h.board.nb_async_tx = b1 & 8 != 0;
+    // bit 6 of the third octet (unused by the join bias): the nb application meddles in mid-transaction
+    if b2 & 0x40 != 0 {
+        h.board.nb_meddle = (h.rng_seed as u32).wrapping_mul(0x9E37_79B9) | 1 << (b3 & 31);
+    }
     h.board.snr = [5i8, -20, 31, 32, 127, -128, -32, -33][((b1 >> 4) & 7) as usize];
     h
 }
